@@ -169,11 +169,9 @@ func c05Config(ctx *core.Ctx, goos, goarch string) {
 	// reader loops (connection oriented): spawned functions with a cycle calling fRegistry.Execute
 	var readers []*ssa.Function
 	for fn := range sp {
-		for _, c := range ssax.Calls(fn) {
-			if c.Method != nil && c.Method.Name() == "Execute" && inCycle(c.Instr.(ssa.Instruction)) {
-				entries[fn] = "frame reader loop"
-				readers = append(readers, fn)
-			}
+		if cycleReaches(fn, func(c ssax.Call) bool { return c.Method != nil && c.Method.Name() == "Execute" }) {
+			entries[fn] = "frame reader loop"
+			readers = append(readers, fn)
 		}
 	}
 	// per-connection server loop: function with a cycle invoking FProcessor.Process
